@@ -197,14 +197,18 @@ def run(ctx):
         if not nodes:
             ctx.ob("C18.timers", fi.short(), what, False, f"{what}: the transition is no longer made in {fn_name}", fi.loc)
             return
+        # the named constant and its value are one spelling (the loader reads module constants as their values)
+        def by_value(mt):
+            return repr(P.try_fold(consts, consts.consts[mt.group(1)])) if mt.group(1) in consts.consts else mt.group(0)
+        musts = {must, re.sub(re.escape(C) + r"\.([A-Z_0-9]+)", by_value, must)}
         for n in nodes:
             g = head_facts(fi, fl, n)
-            ok_must = sem.holds(g, must)
+            ok_must = any(sem.holds(g, m_) for m_ in musts)
             if not ok_must:
                 # the transition may follow its guard at a distance (guard as an early return, stores in between): every
                 # syntactic path to the transition must have taken the decision under the required tests
                 pcs = sem.path_conditions(fi.node, n, kill_rebound=False)
-                if pcs and all(sem.holds(pc, must) for pc in pcs):
+                if pcs and any(all(sem.holds(pc, m_) for pc in pcs) for m_ in musts):
                     ok_must = True
                     g = set().union(*pcs) if pcs else g
             extra = sorted(x for x in g if any(b in x for b in must_not))
